@@ -903,6 +903,22 @@ def mutations(nodes):
             m = copy.deepcopy(nodes)
             m[i]["processor"] = n["processor"] + "2"
             yield ("processor", "node %d" % i, m)
+            # the same destination, another source key (plain and dotted)
+            _, a, b = n["processor"].split(":")
+            for src2 in (a + "2", "acq." + a, "acq.x" + a):
+                m = copy.deepcopy(nodes)
+                m[i]["processor"] = "rename:%s:%s" % (src2, b)
+                yield ("processor", "node %d rename source %s -> %s" % (i, a, src2), m)
+        elif n["processor"].startswith("template:"):
+            # the same output key, another template text (the generated templates contain a dot)
+            m = copy.deepcopy(nodes)
+            m[i]["processor"] = n["processor"].replace('template:"', 'template:"v2_', 1)
+            yield ("processor", "node %d template text" % i, m)
+        elif n["processor"].startswith("delete:"):
+            for key2 in (n["processor"][7:] + "2", "acq." + n["processor"][7:]):
+                m = copy.deepcopy(nodes)
+                m[i]["processor"] = "delete:" + key2
+                yield ("processor", "node %d delete key" % i, m)
         # parameter value at any depth
         for path, v in _paths(n.get("parameters") or {}):
             m = copy.deepcopy(nodes)
@@ -949,6 +965,14 @@ def mutations(nodes):
                            with_spec({"values": new} if isinstance(spec, dict) else new))
                 yield ("sweep.variable_domain", "node %d %s sequence append" % (i, vn),
                        with_spec({"values": vals + [9.0]} if isinstance(spec, dict) else vals + [9.0]))
+                # the same numbers as values of another type (==-equal, different domain: 1 / 1.0 / True)
+                for kind, conv in (("int<->float", lambda x: float(x) if isinstance(x, int) and not isinstance(x, bool) else
+                                    (int(x) if isinstance(x, float) and x == int(x) else x)),
+                                   ("0/1->bool", lambda x: bool(x) if not isinstance(x, bool) and x in (0, 1) else x)):
+                    new = [conv(x) for x in vals]
+                    if [type(a) for a in new] != [type(a) for a in vals]:
+                        yield ("sweep.variable_domain", "node %d %s sequence values %s (equal numbers, other type)" % (i, vn, kind),
+                               with_spec({"values": new} if isinstance(spec, dict) else new))
             elif isinstance(spec, dict) and "from_context" in spec:
                 yield ("sweep.variable_domain", "node %d %s from_context key" % (i, vn), with_spec({"from_context": spec["from_context"] + "2"}))
             elif isinstance(spec, dict):
